@@ -61,6 +61,17 @@ type FuncContract struct {
 	Unroll        int
 	Assumes       []Clause
 	MaxInline     int
+	WriteRules    []WriteRule
+}
+
+// WriteRule: `writes <type> [except <field>,...] [label] <pred>` — every write the function makes (directly or through
+// inlined callees) to an object of that type (a pointee `*T`, or the backing array of a `[]E`) must hit an object
+// allocated during the call or one for which pred holds at the time of the write (`it` names the object).
+type WriteRule struct {
+	Type   string
+	Except []string
+	Label  string
+	Expr   Expr
 }
 
 type SpecFunc struct {
@@ -288,6 +299,23 @@ func parseClause(fc *FuncContract, word, rest string) error {
 			}
 			fc.Modifies = append(fc.Modifies, e)
 		}
+	case "writes":
+		ty, r2 := splitWord(rest)
+		var except []string
+		if w, r3 := splitWord(r2); w == "except" {
+			list, r4 := splitWord(r3)
+			except = strings.Split(list, ",")
+			r2 = r4
+		}
+		lab, src := labelled(strings.TrimSpace(r2))
+		if lab == "" {
+			lab = "write_rule"
+		}
+		e, err := ParseExpr(src)
+		if err != nil {
+			return err
+		}
+		fc.WriteRules = append(fc.WriteRules, WriteRule{Type: ty, Except: except, Label: lab, Expr: e})
 	case "assume_callee_pre":
 		fc.AssumeCalleePre = true
 	case "nopanic":
